@@ -96,17 +96,9 @@ func (r *Reader) validate() error {
 		}
 	}
 
-	// Check for at least one slide
-	hasSlide := false
-	for name := range fileMap {
-		if strings.HasPrefix(name, "ppt/slides/slide") && strings.HasSuffix(name, ".xml") {
-			hasSlide = true
-			break
-		}
-	}
-	if !hasSlide {
-		return fmt.Errorf("no slides found in presentation")
-	}
+	// Whether the package has slides is decided where they are resolved
+	// (parseSlides): slide parts are named by the presentation's relationships
+	// and need not match ppt/slides/slide*.xml.
 
 	return nil
 }
